@@ -204,5 +204,5 @@ func genC01(rt *rapid.T) Case {
 }
 
 func TestC01Ledgers(t *testing.T) {
-	common.Check(t, "C01", "TestC01Ledgers", 1500, 100000, genC01, c01Prop)
+	common.Check(t, "C01", "TestC01Ledgers", 8000, 160000, genC01, c01Prop)
 }
